@@ -118,10 +118,11 @@ static void run_one(const Inp &in, const Config &c, int k, Sink &s) {
     }
     if (returned) {        // failure discipline: a claim of convergence must be true
         bool claims = std::string(SOLV[c.solver]) != "preonly" && std::isfinite(res) && res <= TOL; ++checks;
-        if (claims && in.degenerate) { double tr = vf::true_relres(A, in.f, x);
+        if (claims && !in.degenerate) s.note(k, "converged");
+        else if (claims) { double tr = vf::true_relres(A, in.f, x);
             // reported residuals may be those of the left-preconditioned system: |r|/|b| <= kappa(M^-1) * reported, and kappa <= kappa(A) <= 20
             // for the (validated) diagonally dominant inputs here; 1e3 leaves room for that and for the recurrence drift of the short recurrences
-            if (!(std::isfinite(tr) && tr <= 1e3 * TOL)) s.fail(k, std::string("untruthful-convergence:") + SOLV[c.solver], "solver reports convergence to 1e-8 but the true relative residual is " + std::to_string(tr) + " (" + c.name() + ")"); }
+            s.note(k, "converged"); if (!(std::isfinite(tr) && tr <= 1e3 * TOL)) s.fail(k, std::string("untruthful-convergence:") + SOLV[c.solver], "solver reports convergence to 1e-8 but the true relative residual is " + std::to_string(tr) + " (" + c.name() + ")"); }
         else s.note(k, !std::isfinite(res) ? "non-finite residual reported" : (std::string(SOLV[c.solver]) == "preonly" ? "preonly" : "non-converged residual reported"));
     }
     s.end(k, checks);
@@ -292,7 +293,7 @@ static void run_case(Case &c, const Inp &in, const std::vector<Config> &cfgs, ui
             fail_once(cr.second + ":" + (cf.relax_only ? RELAX[cf.relax] : COARS[cf.coars]), "run ended in a signal / sanitizer abort instead of a return or an exception (" + cf.name() + ", heap fill " + fn + "): " + res[fi].crash_text, J().s("config", cf.name()).s("fill", fn)); }
         if (res[fi].leak) { ++c.checks; size_t p = res[fi].leak_text.find("ERROR: LeakSanitizer"); fail_once("crash:lsan:leak:" + first_amgcl_frame(res[fi].leak_text, p == std::string::npos ? 0 : p), "LeakSanitizer: memory allocated during the runs of this case is no longer reachable: " + res[fi].leak_text.substr(0, 1200), J().s("fill", fn)); }
         for (size_t k = 0; k < cfgs.size(); ++k) { const Rec &r = res[fi].recs[k]; c.checks += r.checks + 1; if (r.ended) ++runs;
-            if (r.note.compare(0, 10, "exception:") == 0) { ++exceptions; vf::obs_add("exceptions_seen", r.note.substr(11, 60)); } else if (!r.note.empty() && r.note != "preonly") ++nonconv;
+            if (r.note.compare(0, 10, "exception:") == 0) { ++exceptions; vf::obs_add("exceptions_seen", r.note.substr(11, 60)); } else if (!r.note.empty() && r.note != "preonly" && r.note != "converged") ++nonconv;
             for (auto &f : r.fails) fail_once(f.first, f.second, J().s("config", cfgs[k].name()).s("fill", fn)); }
     }
     // heap-content differential
